@@ -421,12 +421,17 @@ def explore_shared(conf, k, errors, res, serialise=False, bound=99):
             res.outcomes.add(tuple(
                 (u["out"], len([1 for e in u["ops"] if e[0] == "ctl"]))
                 for u in obs["users"]))
-            for (target, d), u in zip(conf[2], obs["users"]):
-                if target and u["out"] == ("pending",):
-                    res.count("shared_calls_left_polling")
         else:
             res.count("evaluations_defect_model")
-        for no, exp, seen, what in judge_shared(conf, obs):
+        verdicts = judge_shared(conf, obs)
+        if not serialise:
+            judged = {no for no, exp, seen, what in verdicts}
+            for no, u in enumerate(obs["users"]):
+                if u["out"] == ("pending",):
+                    res.count("shared_calls_left_polling")
+                    if no not in judged:
+                        res.count("shared_calls_left_polling_not_judged")
+        for no, exp, seen, what in verdicts:
             kf = None
             if not serialise and no is not None \
                     and what.startswith("does not terminate") \
@@ -492,11 +497,12 @@ def work(item, res):
 
 def shared_items(ctx):
     """('shared', (start, err, ((target, delay), ...)), k, errors); the
-    first user has delay 0"""
-    k = 2 if ctx.quick else 3
+    first user has delay 0.  Two users: k = 2 (quick) / 3, every delay
+    0..6 / 0..12; three users: k = 1 / 2, delay pairs D3"""
+    k2, k3 = (2, 1) if ctx.quick else (3, 2)
     d2 = list(range(0, 7) if ctx.quick else range(0, 13))
     d3 = [(0, 0), (1, 2)] if ctx.quick else \
-        [(0, 0), (0, 1), (1, 0), (1, 1), (1, 2), (2, 1), (0, 4), (2, 4)]
+        [(0, 0), (0, 1), (1, 0), (1, 2), (2, 1), (2, 4)]
     if ctx.seed:
         d2.append((7 if ctx.quick else 13) + ctx.seed % 5)
         d3.append((ctx.seed % 3, 3 + ctx.seed % 4))
@@ -505,17 +511,14 @@ def shared_items(ctx):
         for e in (False, True):
             for a, b in itertools.product(USERS, repeat=2):
                 for d in d2:
-                    items.append(("shared", (s, e, ((a, 0), (b, d))), k,
+                    items.append(("shared", (s, e, ((a, 0), (b, d))), k2,
                                   1 if ctx.quick else 2))
             for a, b, c in itertools.product(USERS, repeat=3):
                 if not a and not b and not c:
                     continue
                 for db, dc in d3:
-                    if ctx.quick and (db, dc) != (0, 0) \
-                            and not (a and b and c):
-                        continue    # quick: get_state users start together
                     items.append(("shared",
-                                  (s, e, ((a, 0), (b, db), (c, dc))), k, 1))
+                                  (s, e, ((a, 0), (b, db), (c, dc))), k3, 1))
     return items
 
 
@@ -529,7 +532,8 @@ def run(ctx):
     res.cov["states"] = len(res.nontrivial)
     res.cov["traces_validated_against_impl"] = res.cov.get("evaluations", 0)
     res.cov["k"] = work.k
-    res.cov["k_shared"] = 2 if ctx.quick else 3
+    res.cov["k_two_users"], res.cov["k_three_users"] = \
+        (2, 1) if ctx.quick else (3, 2)
     res.cov["configurations"] = len(items)
     res.sample(dict(conf=[1, True, 8], behaviour="ack, then PRE-OP after one "
                     "'stay', SAFE-OP at once, error while going to OP"))
@@ -561,7 +565,7 @@ def run(ctx):
         "once the terminal reported...'); a call left polling because "
         "another user's request took the terminal away from what it waits "
         "for and its target was never reported is counted "
-        "(shared_calls_left_polling) but not judged",
+        "(shared_calls_left_polling_not_judged) but not judged",
         "frames are delivered in order; the datagrams of several users "
         "queued at the same time travel in one frame, in queueing order"]
     return res
